@@ -54,6 +54,39 @@ def mass_oracle(root, tab):
     return None if abs(m - 1) < 1e-3 else dict(what="learned circuit is not normalised", total_mass=m)
 
 
+def cont_leaf_oracle(root):
+    """every continuous leaf of a returned circuit is a density: finite parameters in their domain, and the implementation's
+    own likelihood integrates to one (trapezoid rule on a float64 grid over the support; tolerance 2%)."""
+    from deeprob.spn.structure.leaf import Gaussian, Uniform, Isotonic
+    for o in G.post_order(root):
+        if isinstance(o, Gaussian):
+            m, sdv = float(o.mean), float(o.stddev)
+            if not (np.isfinite(m) and np.isfinite(sdv) and sdv > 0):
+                return dict(what="Gaussian leaf is not a density", node=int(o.id), scope=[int(v) for v in o.scope], mean=repr(m), stddev=repr(sdv))
+            grid = m + sdv * np.linspace(-9.0, 9.0, 3601)
+        elif isinstance(o, Uniform):
+            a, w = float(o.start), float(o.width)
+            if not (np.isfinite(a) and np.isfinite(w) and w > 0):
+                return dict(what="Uniform leaf is not a density", node=int(o.id), scope=[int(v) for v in o.scope], start=repr(a), width=repr(w))
+            continue
+        elif isinstance(o, Isotonic):
+            d = np.asarray(o.densities, dtype=np.float64); b = np.asarray(o.breaks, dtype=np.float64)
+            if not (np.all(np.isfinite(d)) and np.all(np.isfinite(b)) and np.all(d >= 0) and d.sum() > 0 and np.all(np.diff(b) > 0)
+                    and len(b) == len(d) + 1):
+                return dict(what="Isotonic leaf is not a density", node=int(o.id), scope=[int(v) for v in o.scope],
+                            densities=[repr(float(x)) for x in d][:12], breaks=[repr(float(x)) for x in b][:13])
+            continue
+        else:
+            continue
+        with np.errstate(all="ignore"):
+            pdf = np.asarray(o.likelihood(grid.reshape(-1, 1)), dtype=np.float64).reshape(-1)
+        mass = float(np.sum((pdf[1:] + pdf[:-1]) * np.diff(grid)) / 2.0) if np.all(np.isfinite(pdf)) else float("nan")
+        if not abs(mass - 1.0) < 0.02:
+            return dict(what="continuous leaf does not integrate to one", node=int(o.id), scope=[int(v) for v in o.scope],
+                        kind=type(o).__name__, mean=repr(m), stddev=repr(sdv), integral=repr(mass))
+    return None
+
+
 def learned_stream(rs, tier):
     """(tag, cfg, callable -> root, sd flag, ncols)"""
     from deeprob.spn.learning.wrappers import learn_estimator, learn_classifier
@@ -65,7 +98,7 @@ def learned_stream(rs, tier):
         cfg = dict(cfg); cfg["adv"] = False
         cfg["rows"] = "kmeans" if cfg["rows"] == "adv" else cfg["rows"]; cfg["cols"] = "rdc" if cfg["cols"] == "adv" else cfg["cols"]
         def f(cfg=cfg):
-            X, dists, doms = c05.gen_data(rs, cfg["kind"], cfg["n"], cfg["d"])
+            X, dists, doms = c05.gen_data(rs, cfg["kind"], cfg["n"], cfg["d"], offsets=True)
             from deeprob.spn.learning.learnspn import learn_spn
             DECL["doms"] = doms
             return learn_spn(X, dists, doms, learn_leaf=cfg["leaf"], split_rows=cfg["rows"], split_cols=cfg["cols"],
@@ -79,7 +112,7 @@ def learned_stream(rs, tier):
                    rows_n=int(rs.choice([3, 4, 5])), n=int(rs.choice([24, 60, 120])), d=int(rs.randint(2, 5)),
                    distinct=int(rs.choice([2, 3, 4])), min_rows=int(rs.choice([2, 6])), min_cols=1, few_distinct=True)
         def f(cfg=cfg):
-            X, dists, doms = c05.gen_data(rs, cfg["kind"], cfg["n"], cfg["d"])
+            X, dists, doms = c05.gen_data(rs, cfg["kind"], cfg["n"], cfg["d"], offsets=True)
             X = X[rs.randint(0, cfg["distinct"], size=cfg["n"])]
             from deeprob.spn.learning.learnspn import learn_spn
             DECL["doms"] = doms
@@ -91,7 +124,7 @@ def learned_stream(rs, tier):
         cfg = dict(kind=["bin", "cat", "mixed"][i % 3], n=int(rs.choice([20, 80, 200])), d=int(rs.randint(3, 6)), wrapper=["estimator", "classifier"][i % 2],
                    min_rows=int(rs.choice([8, 32])))
         def f(cfg=cfg):
-            X, dists, doms = c05.gen_data(rs, cfg["kind"], cfg["n"], cfg["d"])
+            X, dists, doms = c05.gen_data(rs, cfg["kind"], cfg["n"], cfg["d"], offsets=True)
             DECL["doms"] = doms if cfg["kind"] != "mixed" else None
             if cfg["wrapper"] == "estimator":
                 return learn_estimator(X, dists, doms if cfg["kind"] != "mixed" else None, min_rows_slice=cfg["min_rows"],
@@ -211,6 +244,8 @@ def main(tier, seed, replay=None):
                 bad = dict(what="classifier root weights are not the class frequencies", weights=w, class_frequencies=priors)
         if not bad:
             bad = mass_oracle(root, tab)
+        if not bad:
+            bad = cont_leaf_oracle(root)
         cont = sorted({n["var"] for n in tab.nodes if n.get("cont")})
         decl = DECL["doms"]
         cases.append(dict(tag=tag, cfg=cfg, tab=tab, ncols=ncols, sd=sd, cont=cont, oracle=bad, decl=decl,
